@@ -294,6 +294,39 @@ def run(prop, tier):
                 ctx.violation("look-back: clocks=%r regions=%r: %s" % (c[0], c[1], msg),
                               {"engine": "E6 real ovnisort", "clocks": c[0], "regions": c[1], "n": c[2]}, {"kind": "lookback"})
         ctx.part("lookback", cases=len(lb))
+        # many streams: a trace of 60 threads (regions in every seventh one) sorted, checked and emulated by tools that may hold
+        # only 40 descriptors at a time - what a trace of thousands of threads is to the usual limit of 1024
+        def many(_):
+            td = os.path.join(base, "many")
+            shutil.rmtree(td, ignore_errors=True)
+            want = {}
+            for k in range(60):
+                tid = 1000 + k
+                cl, pl = ((0, 2, 1), ((1, 3),)) if k % 7 == 3 else ((0, 1, 2), ())
+                evs = build_stream(cl, pl, tid)
+                # one thread after the other on the only CPU
+                evs = [(m, c + 10 * k, (i32(0, tid) + i64(0)) if m == "OHx" else p, j) for (m, c, p, j) in evs]
+                rel = obs.relpath("L", 10, tid)
+                obs.write_stream(td, rel, meta(tid, k == 0), enc_all(evs))
+                want[rel] = enc_all(stable_sorted(evs))
+            for args, exe in ((["-c"], srt), ([], srt), (["-c"], srt), ([], emu)):
+                rc, o, err = emusrv.run_tool(exe, args + [td], nofile=40, timeout=120)
+                expect = 1 if (args == ["-c"] and exe is srt and not many.sorted) else 0
+                if exe is srt and args == []:
+                    many.sorted = True
+                if rc != expect:
+                    e = [l for l in err.split("\n") if "ERROR" in l or "FATAL" in l][:2]
+                    return "%s %s on a trace of 60 streams with 40 descriptors allowed: exit %r, expected %d: %s" % (os.path.basename(exe).split("-")[0], " ".join(args), rc, expect, " | ".join(e)[:300])
+            for rel, w in want.items():
+                if open(os.path.join(td, rel, "stream.obs"), "rb").read() != w:
+                    return "stream %s of the 60-stream trace is not the stable sort of its events" % rel
+            return None
+        many.sorted = False
+        msg = many(None)
+        ctx.add(evaluations=4, transitions=4)
+        if msg:
+            ctx.violation("many streams: " + msg, {"engine": "E6 real ovnisort", "streams": 60, "nofile": 40}, {"kind": "many-streams"})
+        ctx.part("many-streams", streams=60, descriptors_allowed=40)
         # a stream that ends inside an unsorted region (the closing marker never came): ovnisort must sort it or fail -
         # "when it cannot sort it fails and says so"; exit 0 must leave a sorted stream
         opn = [(cl, pl) for (cl, pl) in (shapes(3, (0, 1, 2), 1) if tier == "quick" else shapes(4, (0, 1, 2), 1)) if pl and pl[0][1] == len(cl)]
